@@ -1,13 +1,15 @@
 #!/bin/bash
 # Development tool: re-run the quick check of the home property against every stored seeded change and rewrite the
-# home entry of its verdict.json.  tools/recheck_seeded.sh [letters, default "A B C D E F"]
+# home entry of its verdict.json.  tools/recheck_seeded.sh [letters, default "A B C D E F G H"]
 # Uses the snapshot worktree /tmp/verif-snap (refresh it first: git -C /tmp/verif-snap checkout --detach <HEAD>).
-LET="${*:-A B C D E F}"
+LET="${*:-A B C D E F G H}"
 cd /verif
 for d in seeded/C*/; do
   id=$(basename "$d")
   for L in $LET; do
     p="seeded/$id/$L/patch.diff"; [ -f "$p" ] || continue
+    # a change whose original patch no longer applies after a later repair of /repo is kept re-based
+    [ -f "seeded/$id/$L/patch_rebased.diff" ] && p="seeded/$id/$L/patch_rebased.diff"
     if [ -n "$(git -C /repo status --porcelain)" ]; then echo "/repo dirty"; exit 3; fi
     if ! git -C /repo apply --check "/verif/$p" 2>/dev/null; then echo "$id/$L patch-does-not-apply"; continue; fi
     git -C /repo apply "/verif/$p"
